@@ -138,6 +138,8 @@ pub unsafe fn i_try_recv_view<RW: QueueRW<Pay>>(n: usize, k: usize, mpmc: bool, 
     env_reset(&w, mpmc, budget, en);
     env_set_me_reader(i, reader);
     G_MY_VIEW = true;
+    // the last sender's final send and its drop can both land between two adjacent loads of the consumer
+    ENV_PER_POINT = 2;
     VIEW_CALLS = 0;
     rt::ENV_MODE = ENV_PROTOCOL;
     let r = w.q.try_recv_view(view_fn, reader);
@@ -410,7 +412,7 @@ pub unsafe fn i_add_stream_list_race<RW: QueueRW<Pay>>(n: usize) {
     let rx2 = rx.add_stream();
     rt::ENV_MODE = ENV_OFF;
     let others = if G_EXTRA_POS_CELL != 0 { 1 } else { 0 };
-    assert!(w.q.tail.vf_list_len() == a0.k + 1 + others, "C10/C16: the published list must contain every stream: the original ones, the one added concurrently, and mine");
+    assert!(w.q.tail.vf_list_len() == a0.k + 1 + others, "C01/C03/C10/C16: the published list must contain every stream: the original ones, the one added concurrently (its subscriber would lose back-pressure and values), and mine");
     assert!(w.q.tail.vf_list_has_cell(rx2.reader.vf_pos_cell_addr()), "C10: my new stream is in the published list");
     assert!(w.q.tail.vf_list_has_cell(rx.reader.vf_pos_cell_addr()), "C10/C11: the parent stream is still in the published list");
     if G_EXTRA_POS_CELL != 0 {
@@ -433,6 +435,8 @@ pub unsafe fn i_try_send_addstream<RW: QueueRW<Pay>>(n: usize, kind: SendKind, b
         rt::assume(a0.writers == 1);
     }
     env_reset(&w, false, budget, (1 << A_ADDSTREAM) | (1 << A_CONSUME));
+    // the new list can be published AND its parent can advance between two adjacent loads of the scan
+    ENV_PER_POINT = 2;
     G_ME_SENDER = true;
     let v: usize = rt::oracle_usize();
     let p = Pay::new(v);
@@ -453,5 +457,41 @@ pub unsafe fn i_try_send_addstream<RW: QueueRW<Pay>>(n: usize, kind: SendKind, b
         Err(TrySendError::Disconnected(_)) => assert!(false, "ring-level send never reports Disconnected"),
     }
     kani_cover!(G_EXTRA_POS_CELL != 0 && G_MY_CLAIMS == 0, "refused after a concurrent add_stream");
+    mem::forget(w);
+}
+
+// ---------------------------------------------------------------------------------------------
+// I4: the two-look end-of-stream test of try_recv (C07)
+
+/// try_recv on a SOLE-consumer stream while the last sender's final send and its drop land between any
+/// two adjacent shared accesses of the consumer (two environment moves at one observation point):
+/// Disconnected may only be reported if no sender is alive AND the stream has consumed every accepted
+/// value -- which is what the second look at the tag after reading the sender count is for.
+pub unsafe fn i_recv_disconnect<RW: QueueRW<Pay>>(n: usize, mpmc: bool) {
+    let w = World::<RW>::arbitrary(n, 1, mpmc, false);
+    let a0 = w.a;
+    rt::assume(a0.ncons[0] == 1);
+    let reader: &Reader = match &w.rd[0] {
+        Some(r) => r,
+        None => unreachable!(),
+    };
+    env_reset(&w, mpmc, 2, (1 << A_PUBLISH) | (1 << A_SENDER));
+    env_set_me_reader(0, reader);
+    ENV_PER_POINT = 2;
+    rt::ENV_MODE = ENV_PROTOCOL;
+    let r = w.q.try_recv(reader);
+    rt::ENV_MODE = ENV_OFF;
+    match r {
+        Ok(v) => {
+            assert!(G_MY_COMMITS == 1 && G_MY_COMMIT_PUBLISHED && v.val == G_MY_COMMIT_VAL, "C01: the delivered value is the one published under the committed count");
+            mem::forget(v);
+        }
+        Err((_pt, TryRecvError::Empty)) => assert!(G_MY_COMMITS == 0),
+        Err((_pt, TryRecvError::Disconnected)) => {
+            assert!(w.q.writers.peek() == 0, "C07: the end is reported while a sender is alive");
+            assert!(reader.vf_pos() == w.q.head.vf_peek(), "C07: the end is reported while an accepted value is still undelivered to this stream (the sender's last send and its drop fell between the two looks)");
+        }
+    }
+    kani_cover!(ENV_TAKEN[0] > 0 && ENV_TAKEN[2] > 0, "send and sender drop both taken");
     mem::forget(w);
 }
